@@ -241,7 +241,9 @@ SWITCHES = [dict(u=u, f=f, layer=l)
             for u in (False, True) for f in (False, True)
             for l in (None, ['LA'], ['Unit'], ['!LA'], ['LB', 'Unit'], ['!Unit'])]
 E2E_LEVELS = [{}, {'all': True}, {'at_level': 2}, {'only_level': 2},
-              {'at_level': 0}, {'only_level': 3, 'all': True}]
+              {'at_level': 0}, {'only_level': 3, 'all': True},
+              {'all': True, 'at_level': 1}, {'all': True, 'at_level': 1, 'all_first': True},
+              {'all': True, 'at_level': 2, 'all_first': True}]
 
 
 def _gen_e2e_fixed():
@@ -259,6 +261,8 @@ def _rand_level_opts(rng):
         o['at_level'] = rng.choice([-2, -1, 0, 1, 2, 3, 4, 7])
     if rng.random() < 0.2:
         o['all'] = True
+        if rng.random() < 0.5:
+            o['all_first'] = True
     if rng.random() < 0.3:
         o['only_level'] = rng.choice([-1, 0, 1, 2, 3, 5])
     return o
